@@ -93,6 +93,11 @@ def setP (s : St) (o x v : Nat) : St × Bool :=
           assigned := upd s.assigned o SINCE_ANYTHING
           dassigned := upd s.dassigned x SINCE_ANYTHING }, true)
 
+/-- an IN-PLACE change of the (mutable) value a parameter holds (`obj.p.x[0] += 1`, a nested array of a
+ragged value, `dict.update`): no setter runs, no flag changes; the value is simply a different one.
+(Not part of `Prog`: the keep-set logic of `restoreBackup` only sees assignments through setters.) -/
+def pokeP (s : St) (o x v : Nat) : St := { s with vals := upd s.vals o (upd (s.vals o) x v) }
+
 /-- `obj._setCache(k, v)` -/
 def setCache (s : St) (o k v : Nat) : St := { s with cache := upd s.cache o (upd (s.cache o) k (some v)) }
 
